@@ -50,7 +50,11 @@ def _keys(d: D, hi: int) -> list[str]:
 
 
 def _kwargs(d: D) -> dict:
-    return {k: _value(d) for k in _keys(d, 3)}
+    kw = {k: _value(d) for k in _keys(d, 3)}
+    if d.pct(45):
+        # options that are themselves sections (logging-style dicts) are what deep merging is for
+        kw[d.pick(["a", "b", "opts"])] = {key: _value(d, 1) for key in (_keys(d, 3) or ["a"])}
+    return kw
 
 
 def _override(d: D, base: dict, depth: int = 0) -> dict:
@@ -60,7 +64,7 @@ def _override(d: D, base: dict, depth: int = 0) -> dict:
         r = d.int(0, 99)
         if r < 40:
             continue
-        if isinstance(v, dict) and r < 80 and depth < 2:
+        if isinstance(v, dict) and r < 90 and depth < 2:
             out[k] = _override(d, v, depth + 1)  # dict on both sides: merged at depth
         else:
             out[k] = _value(d, depth + 1)
@@ -81,7 +85,7 @@ class _G:
         for i in range(NCLS):
             children = []
             if i < NCLS - 2:
-                for _ in range(d.weighted([(0, 35), (1, 35), (2, 25), (3, 5)])):
+                for _ in range(d.weighted([(0, 20), (1, 40), (2, 30), (3, 10)])):
                     j = d.int(i + 1, NCLS - 1)
                     how = d.weighted([("class", 35), ("ref", 20), ("entrypoint", 20), ("omitted", 25)])
                     children.append({"alias": self.alias(how, j, [c["alias"] for c in children]), "type": how, "cls": j, "kwargs": _kwargs(d)})
@@ -112,7 +116,7 @@ class _G:
         out: dict[str, Any] = {}
         taken = [c["alias"] for c in self.classes[i]["children"]]
         for ch in self.classes[i]["children"]:
-            if not d.pct(60):
+            if not d.pct(75):
                 continue
             entry = _override(d, ch["kwargs"])
             c = ch["cls"]
